@@ -782,7 +782,7 @@ void MemoryGroup::buildResetLogic(Circuit &circuit)
 
 	// Build counter for writes
 	size_t addrCounterSize = utils::Log2C(numEntries);
-	NodePort addrCounter = buildResetAddrCounter(circuit, addrCounterSize, resetClock);
+	NodePort addrCounter = buildResetAddrCounter(circuit, addrCounterSize, resetClock, numEntries);
 
 	// Rewire initializaiton network's input to the counter
 	while (!m_memory->getDirectlyDriven((size_t)Node_Memory::Outputs::INITIALIZATION_ADDR).empty()) {
@@ -831,7 +831,7 @@ void MemoryGroup::buildResetRom(Circuit &circuit)
 
 	size_t addrCounterSize = utils::Log2C(numEntries);
 
-	NodePort addrCounter = buildResetAddrCounter(circuit, addrCounterSize, resetClock);
+	NodePort addrCounter = buildResetAddrCounter(circuit, addrCounterSize, resetClock, numEntries);
 
 
 	auto *romReadPort = circuit.createNode<hlim::Node_MemPort>(wordWidth);
@@ -943,7 +943,7 @@ Node_MemPort *MemoryGroup::findSuitableResetWritePort()
 	return nullptr;
 }
 
-NodePort MemoryGroup::buildResetAddrCounter(Circuit &circuit, size_t width, Clock *resetClock)
+NodePort MemoryGroup::buildResetAddrCounter(Circuit &circuit, size_t width, Clock *resetClock, size_t numEntries)
 {
 	lazyCreateFixupNodeGroup();
 
@@ -963,6 +963,12 @@ NodePort MemoryGroup::buildResetAddrCounter(Circuit &circuit, size_t width, Cloc
 	giveName(circuit, counter, "reset_addr_counter");
 
 	reg->connectInput(Node_Register::DATA, p0(c.aadd(counter, p0(c.constBVec(1, width)))));
+
+	// Stop at the last word. The reset may be held longer than the minimum (it always is by one cycle for asynchronous resets):
+	// a counter that keeps running leaves the memory (depth not a power of two) and its writes wrap around onto word 0, 1, ...
+	auto *notAtLastWord = c.cneq(counter, p0(c.constBVec(numEntries-1, width)));
+	notAtLastWord->setComment("Hold the reset address counter once the last word has been reached.");
+	reg->connectInput(Node_Register::ENABLE, p0(notAtLastWord));
 
 	return counter;
 }
